@@ -22,14 +22,21 @@ NO_EVENT, NOTE_OFF = -2, -1           # constants.MELODY_NO_EVENT, MELODY_NOTE_O
 MEL_LO, MEL_HI = -2, 127
 # opcodes shared with coq/Run/C17.v
 APPEND, SETLEN, SLICE, INCRES, DEEPCOPY, REINIT, RESET, TRUNCATE = 1, 2, 3, 4, 5, 6, 7, 8
+NOT_A_SET = -7      # drum event wire marker: a list instead of a frozenset
+NOT_AN_EVENT = -7   # performance event type marker: append a bare tuple instead of a PerformanceEvent
 
 RULE = ('one case = one edit history (append / set_length from either end / slice / increase_resolution / deepcopy / '
         'truncate / re-initialisation / _reset) applied to one of the seven EventSequence classes, observed after every '
-        'op; quick = seeded random histories of 24 ops per class plus a fixed corpus of boundary histories; thorough = ALL '
+        'op; every constructor parameter is drawn at several non-default values independently; quick = seeded random histories of 24 ops per class (classes interleaved) plus a fixed corpus of boundary histories; thorough = ALL '
         'histories of length 5 over a 9-10 op alphabet per class from a non-empty object (every shorter history is a '
         'prefix and is observed as such) plus 10x the random ones; non-trivial = the history reaches at least 3 different '
         'lengths with at least one non-empty state; distinct by canonical input')
 ASSUMPTIONS = [
+    'the expected outcome of every op (success / ValueError / MelodyChordsMismatchError / NotImplementedError) and the '
+    'reported resolution, max_shift_steps, program, is_drum, steps_per_second|quarter are derived by the oracle from '
+    'the REQUESTED arguments; wire conventions: a drum event starting with -7 is a Python list instead of a frozenset, a '
+    'performance event of type -7 is a bare tuple (both must be rejected; the model rejects them as out-of-range values), '
+    'a one-sided LeadSheet(melody, None) call is sent to the model as a pair that differs in start_step',
     'the original of every deepcopy / slice and a second object built from the same Python list on every '
     're-initialisation stay alive (the last 3 of them) and are re-observed after every later op; the model side of that '
     'observation is empty by construction (Gallina values are immutable), a change is the oracle failure '
@@ -86,16 +93,29 @@ def gen_coq():
 
 
 # ---------------------------------------------------------------- real objects
-def _perf(start, m, kind):
-    from note_seq import performance_lib as pl
+_RATES = [100, 1, 31, 4, 12]
+
+
+def _perf_rate(m, kind, rate):
+    """steps_per_second (kind 0) / steps_per_quarter (kind 1) requested for selector `rate`."""
     if kind:
-        spq = 4 if m % 4 == 0 else 2 if m % 2 == 0 else 1
-        p = pl.MetricPerformance(steps_per_quarter=spq, start_step=start, max_shift_quarters=m // spq)
-    else:
-        p = pl.Performance(steps_per_second=100, start_step=start, max_shift_steps=m)
-    if p.max_shift_steps != m:
-        raise RuntimeError('harness: max_shift_steps')
-    return p
+        cands = [d for d in (1, 2, 3, 4, 12) if m % d == 0]
+        return cands[rate % len(cands)]
+    return _RATES[rate % len(_RATES)]
+
+
+def _perf(start, m, kind, nvb=0, rate=0, program=-1, is_drum=-1):
+    """Performance / MetricPerformance with EVERY constructor parameter requested explicitly
+    (program / is_drum: -1 = None)."""
+    from note_seq import performance_lib as pl
+    prog = None if program < 0 else program
+    drum = None if is_drum < 0 else bool(is_drum)
+    r = _perf_rate(m, kind, rate)
+    if kind:
+        return pl.MetricPerformance(steps_per_quarter=r, start_step=start, num_velocity_bins=nvb,
+                                    max_shift_quarters=m // r, program=prog, is_drum=drum)
+    return pl.Performance(steps_per_second=r, start_step=start, num_velocity_bins=nvb, max_shift_steps=m,
+                          program=prog, is_drum=drum)
 
 
 def _build(cls, init):
@@ -111,10 +131,10 @@ def _build(cls, init):
     if cls == 5:
         return lead_sheets_lib.LeadSheet()
     if cls == 6:
-        return pianoroll_lib.PianorollSequence(steps_per_quarter=4, start_step=init[0], min_pitch=init[1],
-                                               max_pitch=init[2])
+        return pianoroll_lib.PianorollSequence(steps_per_quarter=(init[3] if len(init) > 3 else 4),
+                                               start_step=init[0], min_pitch=init[1], max_pitch=init[2])
     if cls == 7:
-        return _perf(init[0], init[1], init[2])
+        return _perf(*init)
     raise ValueError(cls)
 
 
@@ -122,7 +142,9 @@ def _dec(cls, x, ch):
     if cls in (1, 2):
         return x
     if cls == 3:
-        return frozenset(x)
+        # wire convention: a leading NOT_A_SET marks "a Python list, not a frozenset" (DrumTrack must reject it;
+        # the model rejects it as well because NOT_A_SET is not a MIDI pitch)
+        return list(x[1:]) if x[:1] == [NOT_A_SET] else frozenset(x)
     if cls == 4:
         return ch[x]
     if cls == 6:
@@ -176,7 +198,10 @@ def _apply(cls, obj, op, ch, sibs=None):
                 raise TypeError('slice-returned-' + type(new).__name__)
             return new
         elif code == INCRES:
-            obj.increase_resolution(op[1])
+            if len(op) > 2 and op[2]:          # (INCRES k (f)): public fill_event of the base method
+                obj.increase_resolution(op[1], fill_event=_dec(cls, op[2][0], ch))
+            else:
+                obj.increase_resolution(op[1])
         elif code == DEEPCOPY:
             return copy.deepcopy(obj)
         elif code == REINIT:
@@ -186,10 +211,15 @@ def _apply(cls, obj, op, ch, sibs=None):
             if cls == 1:
                 mk = lambda: events_lib.SimpleEventSequence(pad_event=p, **kw)
             else:
+                if p % 2:                  # the subclasses must ignore a caller's pad_event
+                    kw['pad_event'] = p
                 mk = lambda: {2: melodies_lib.Melody, 3: drums_lib.DrumTrack, 4: chords_lib.ChordProgression}[cls](**kw)
             new = mk()
-            if sibs is not None and evs is not None:
-                sibs.append(mk())          # same `evs` list object
+            if evs is not None:
+                if sibs is not None:
+                    sibs.append(mk())      # same `evs` list object
+                # the caller goes on using its list: neither object may notice
+                evs.append({1: 99, 2: 60, 3: frozenset([36]), 4: ch[1]}[cls])
             return new
         elif code == RESET:
             obj._reset()
@@ -212,14 +242,19 @@ def _apply(cls, obj, op, ch, sibs=None):
             return copy.deepcopy(obj)
         elif code == REINIT:
             mes, ms, msb, msq, ces, cs, csb, csq = op[1:9]
+            one_sided = op[9] if len(op) > 9 else 0      # 1: chords=None, 2: melody=None
             mes = list(mes)
             cev = [ch[x] for x in ces]
-            mk = lambda: lead_sheets_lib.LeadSheet(
-                melodies_lib.Melody(events=mes, start_step=ms, steps_per_bar=msb, steps_per_quarter=msq),
-                chords_lib.ChordProgression(events=cev, start_step=cs, steps_per_bar=csb, steps_per_quarter=csq))
+
+            def mk():
+                m = melodies_lib.Melody(events=mes, start_step=ms, steps_per_bar=msb, steps_per_quarter=msq)
+                c = chords_lib.ChordProgression(events=cev, start_step=cs, steps_per_bar=csb, steps_per_quarter=csq)
+                return lead_sheets_lib.LeadSheet(None if one_sided == 2 else m, None if one_sided == 1 else c)
             new = mk()
             if sibs is not None:
                 sibs.append(mk())          # same `mes` / `cev` list objects
+            mes.append(60)
+            cev.append(ch[1])
             return new
         elif code == RESET:
             obj._reset()
@@ -233,8 +268,12 @@ def _apply(cls, obj, op, ch, sibs=None):
             obj.set_length(op[1], from_left=bool(op[2]))
         elif code == REINIT:
             es, s0, mn, mx, sh = op[1:6]
-            return pianoroll_lib.PianorollSequence(events_list=[tuple(e) for e in es], steps_per_quarter=4,
-                                                   start_step=s0, min_pitch=mn, max_pitch=mx, shift_range=bool(sh))
+            evs = [tuple(e) for e in es]
+            new = pianoroll_lib.PianorollSequence(events_list=(evs or None) if s0 % 2 else evs,
+                                                  steps_per_quarter=(op[6] if len(op) > 6 else 4),
+                                                  start_step=s0, min_pitch=mn, max_pitch=mx, shift_range=bool(sh))
+            evs.append((60,))
+            return new
         elif code == DEEPCOPY:
             return copy.deepcopy(obj)
         else:
@@ -242,13 +281,16 @@ def _apply(cls, obj, op, ch, sibs=None):
         return obj
     if cls == 7:
         if code == APPEND:
-            obj.append(pl.PerformanceEvent(op[1], op[2]))
+            if op[1] == NOT_AN_EVENT:
+                obj.append((op[2],))       # not a PerformanceEvent: documented ValueError
+            else:
+                obj.append(pl.PerformanceEvent(op[1], op[2]))
         elif code == SETLEN:
             obj.set_length(op[1], from_left=bool(op[2]))
         elif code == TRUNCATE:
             obj.truncate(op[1])
         elif code == REINIT:
-            return _perf(op[1], op[2], op[3])
+            return _perf(*op[1:])
         elif code == DEEPCOPY:
             return copy.deepcopy(obj)
         else:
@@ -288,7 +330,7 @@ def _observe(cls, obj, outcome, ch):
           _t(lambda: _int(obj.start_step)),
           _t(lambda: _int(obj.end_step)),
           n,
-          _t(lambda: [_int(s) for s in obj.steps]),
+          _t(lambda: _steps(obj)),
           _t(lambda: _probe(cls, obj, n, ch)) if isinstance(n, int) else ['EXC', 'len']]
     if cls in (1, 2, 3, 4, 5):
         ob.append(_t(lambda: [_int(obj.steps_per_bar), _int(obj.steps_per_quarter)]))
@@ -298,7 +340,27 @@ def _observe(cls, obj, outcome, ch):
         ob.append(_t(lambda: [_int(obj.chords.start_step), _int(obj.chords.end_step)]))
     if cls in (6, 7):
         ob.append(_t(lambda: _int(obj.num_steps)))
+    if cls == 6:
+        ob.append(_t(lambda: [_int(obj.steps_per_quarter)]))
+    if cls == 7:
+        ob.append(_t(lambda: _perf_cfg(obj)))
     return ob
+
+
+def _steps(obj):
+    st = obj.steps
+    out = [_int(x) for x in st]
+    st.append(-12345)                      # the caller owns the returned list
+    if [_int(x) for x in obj.steps] != out:
+        raise RuntimeError('steps-buffer-shared')
+    return out
+
+
+def _perf_cfg(obj):
+    rate = obj.steps_per_quarter if hasattr(obj, 'steps_per_quarter') else obj.steps_per_second
+    return [_int(obj.max_shift_steps), -1 if obj.program is None else _int(obj.program),
+            -1 if obj.is_drum is None else int(bool(obj.is_drum)), _int(rate),
+            1 if hasattr(obj, 'steps_per_quarter') else 0]
 
 
 RETAIN = 3          # how many earlier objects (originals of copies / slices, siblings) stay under observation
@@ -356,13 +418,36 @@ def impl(case):
 # ---------------------------------------------------------------- model side
 def model_input(case):
     inp = case['input']
-    return [inp['cls'], inp['init'], inp['ops']]
+    ops = inp['ops']
+    if inp['cls'] == 5:
+        # LeadSheet(melody, None) / LeadSheet(None, chords): MelodyChordsMismatchError.  The model's constructor
+        # always gets both parts; a one-sided call is sent as a pair that differs in start_step.
+        ops = [op[:6] + [op[2] + 1] + op[7:9] if op[0] == REINIT and len(op) > 9 and op[9] else op for op in ops]
+    return [inp['cls'], inp['init'], ops]
 
 
 def model_output(case, m):
     # Gallina values are immutable: an object no op is applied to cannot change.  The last field of every
     # observation (retained objects that changed) is therefore empty on the model side by construction.
-    return [ob + [[]] for ob in m]
+    inp = case['input']
+    cls = inp['cls']
+    out = []
+    cfg = _requested_cfg(cls, inp['init'])
+    for op, ob in zip(inp['ops'], m):
+        if op[0] == REINIT and ob[0] == 0:
+            cfg = _requested_cfg(cls, op[2:5] + op[6:7] if cls == 6 else op[1:])
+        out.append(ob + ([cfg] if cfg is not None else []) + [[]])
+    return out
+
+
+def _requested_cfg(cls, a):
+    """Pass-through constructor parameters as the public properties must report them."""
+    if cls == 6:        # (start minp maxp [spq])
+        return [a[3] if len(a) > 3 else 4]
+    if cls == 7:        # (start max_shift kind [nvb rate program is_drum])
+        a = list(a) + [0, 0, -1, -1][max(0, len(a) - 3):]
+        return [a[1], a[5], a[6], _perf_rate(a[1], a[2], a[4]), int(bool(a[2]))]
+    return None
 
 
 # ---------------------------------------------------------------- the property on the implementation
@@ -375,6 +460,60 @@ def _in_claim(cls, op):
     if code == REINIT and cls == 7:
         return op[2] >= 1
     return True
+
+
+def _mel_ok(e):
+    return MEL_LO <= e <= MEL_HI
+
+
+def _drum_ok(ev):
+    return ev[:1] != [NOT_A_SET] and all(0 <= p <= 127 for p in ev)
+
+
+def _perf_ok(t, v):
+    """PerformanceEvent's documented value ranges."""
+    if t in (1, 2):
+        return 0 <= v <= 127
+    if t == 3:
+        return v >= 0
+    if t == 4:
+        return 1 <= v <= 127
+    if t == 5:
+        return v >= 1
+    return False
+
+
+def _expected_outcome(cls, op):
+    """0 = must succeed, 1 = ValueError, 2 = MelodyChordsMismatchError, 3 = NotImplementedError: what the
+    documented contracts say for the REQUESTED arguments (ops inside the claim only)."""
+    code = op[0]
+    if code == APPEND:
+        if cls == 2:
+            return 0 if _mel_ok(op[1]) else 1
+        if cls == 3:
+            return 0 if _drum_ok(op[1]) else 1
+        if cls == 5:
+            return 0 if _mel_ok(op[1]) else 1
+        if cls == 7:
+            return 0 if _perf_ok(op[1], op[2]) else 1
+        return 0
+    if code == SETLEN and cls in (6, 7) and op[2]:
+        return 3
+    if code == REINIT:
+        if cls == 2 and op[2]:
+            return 0 if all(_mel_ok(e) for e in op[2][1]) else 1
+        if cls == 3 and op[2]:
+            return 0 if all(_drum_ok(e) for e in op[2][1]) else 1
+        if cls == 5:
+            mes, ms, msb, msq, ces, cs, csb, csq = op[1:9]
+            if not all(_mel_ok(e) for e in mes):
+                return 1
+            if (len(op) > 9 and op[9]) or len(mes) != len(ces) or (ms, msb, msq) != (cs, csb, csq):
+                return 2
+            return 0
+        if cls == 7:
+            return 1 if len(op) > 4 and op[4] > 127 else 0
+    return 0
 
 
 def _mel_same(new, old):
@@ -559,6 +698,44 @@ def _check_op(cls, op, prev, ob, pad):
     return None
 
 
+def _shifted(e, rng6):
+    return [p - rng6[0] for p in e if rng6[0] <= p <= rng6[1]]
+
+
+def _check_cfg(cls, op, prev, ob, rng6):
+    """Resolution bookkeeping (classes 1-5) and pitch-range handling (pianoroll), from the requested values."""
+    code = op[0]
+    if cls in (1, 2, 3, 4, 5):
+        res, pres = ob[7], prev[7]
+        if code == REINIT:
+            want = [op[4], op[5]] if cls != 5 else [op[3], op[4]]
+        elif code == INCRES:
+            want = [pres[0] * op[1], pres[1] * op[1]]
+        elif code == RESET:
+            want = [16, 4]
+        else:
+            want = pres
+        if res != want:
+            return {'kind': 'resolution-wrong', 'got': res, 'want': want}
+        if code == INCRES and cls != 5:
+            k = op[1]
+            fill = op[2][0] if len(op) > 2 and op[2] else {2: NO_EVENT, 3: []}.get(cls)
+            pe, evs = prev[1], ob[1]
+            want_evs = []
+            for e in pe:
+                want_evs += [e] * k if fill is None else [e] + [fill] * (k - 1)
+            if evs != want_evs:
+                return {'kind': 'increase-resolution-wrong', 'k': k}
+    if cls == 6:
+        if code == APPEND and ob[1][-1:] != [_shifted(op[1], rng6) if op[2] else op[1]]:
+            return {'kind': 'append-wrong', 'shift_range': bool(op[2]), 'range': rng6}
+        if code == REINIT:
+            new = [op[3], op[4]]
+            if ob[1] != [_shifted(e, new) if op[5] else e for e in op[1]]:
+                return {'kind': 'reinit-wrong', 'shift_range': bool(op[5]), 'range': new}
+    return None
+
+
 def oracle(case, io):
     inp = case['input']
     cls, ops = inp['cls'], inp['ops']
@@ -567,6 +744,8 @@ def oracle(case, io):
     ch = _chords()
     prev = _observe(cls, _build(cls, inp['init']), 0, ch) + [[]]
     pad = inp['init'][0] if cls == 1 else None
+    rng6 = list(inp['init'][1:3]) if cls == 6 else None      # requested (min_pitch, max_pitch)
+    cfg = _requested_cfg(cls, inp['init'])
     for i, (op, ob) in enumerate(zip(ops, io)):
         if ob[-1]:
             # an object set aside earlier (the original of a deepcopy / slice, or a second object built from the
@@ -578,15 +757,17 @@ def oracle(case, io):
             return None          # the property makes no claim about the rest of this history
         where = {'cls': CLS[cls], 'step': i, 'opcode': op[0]}
         out = ob[0]
-        if out != 0:
-            accepted = (
-                (out == 1 and op[0] in (APPEND, REINIT) and cls in (2, 3, 5, 7)) or
-                (out == 2 and op[0] == REINIT and cls == 5) or
-                (out == 3 and op[0] == SETLEN and cls in (6, 7) and bool(op[2])))
+        want = _expected_outcome(cls, op)
+        if out != want:
             if out == 4:
                 return dict(kind='set-length-assert-fired', **where)
-            if not accepted:
+            if out == 0:
+                return dict(kind='invalid-input-accepted', expected=want, **where)
+            if want == 0:
                 return dict(kind='unexpected-exception', exc=out[1] if isinstance(out, list) else out, **where)
+            return dict(kind='wrong-exception-class', expected=want,
+                        exc=out[1] if isinstance(out, list) else out, **where)
+        if out != 0:
             if ob[1:] != prev[1:]:
                 return dict(kind='rejected-op-changed-the-object', **where)
             continue
@@ -594,12 +775,19 @@ def oracle(case, io):
         if not bad and op[0] == SETLEN and ob[4] == len(ob[1]) and (cls != 5 or len(ob[8]) == len(ob[9])):
             # name the set_length defect before the invariant it breaks
             bad = _check_op(cls, op, prev, ob, pad)
-        bad = bad or _check_state(cls, ob) or _check_op(cls, op, prev, ob, pad)
+        bad = bad or _check_state(cls, ob) or _check_op(cls, op, prev, ob, pad) or _check_cfg(cls, op, prev, ob, rng6)
         if bad:
             bad.update(where)
             return bad
         if cls == 1 and op[0] == REINIT:
             pad = op[1]
+        if cls == 6 and op[0] == REINIT:
+            rng6 = [op[3], op[4]]
+        if cls in (6, 7):
+            if op[0] == REINIT:
+                cfg = _requested_cfg(cls, op[2:5] + op[6:7] if cls == 6 else op[1:])
+            if ob[-2] != cfg:
+                return dict(kind='constructor-parameter-not-honoured', got=ob[-2], requested=cfg, **where)
         prev = ob
     return None
 
@@ -632,7 +820,10 @@ def _event(cls, rng):
     if cls == 2:
         return rng.choice([-1, -2, -2, 60, 62, 0, 127, 64]) if rng.random() < 0.93 else rng.choice([-3, 128, 200])
     if cls == 3:
-        if rng.random() < 0.06:
+        r = rng.random()
+        if r < 0.02:
+            return [NOT_A_SET, 36, 38]       # a list, not a frozenset
+        if r < 0.06:
             return sorted(set([rng.choice([-1, 128]), 36]))
         return sorted(set(rng.choice([36, 38, 42, 0, 127, 51]) for _ in range(rng.choice([0, 0, 1, 1, 2, 3]))))
     if cls == 4:
@@ -650,13 +841,16 @@ def _simple_op(cls, rng, wild, budget):
         return [SLICE, _opt(rng, -8, 14), _opt(rng, -8, 14)]
     if r < 0.78 and budget[0] > 0:
         budget[0] -= 1
+        if cls in (1, 4) and rng.random() < 0.5:     # base-class method: explicit fill_event
+            return [INCRES, _k(rng, wild), [_event(cls, rng)]]
         return [INCRES, _k(rng, wild)]
     if r < 0.86:
         return [DEEPCOPY]
     if r < 0.97:
-        es = [] if rng.random() < 0.15 else [1, [_event(cls, rng) for _ in range(rng.randint(0, 6))]]
-        sq = rng.choice([1, 4, 4, 12])
-        return [REINIT, rng.randint(-2, 5), es, rng.choice([0, 0, 1, 4, 16, 17]), sq * rng.choice([3, 4]), sq]
+        es = [] if rng.random() < 0.15 else [1, [_event(cls, rng) for _ in range(rng.choice([0, 1, 1, 2, 3, 4, 6]))]]
+        # start_step, steps_per_bar, steps_per_quarter drawn independently of each other
+        return [REINIT, rng.randint(-2, 5), es, rng.choice([0, 0, 1, 4, 16, 17, -3]),
+                rng.choice([16, 3, 12, 17, 48, 1]), rng.choice([4, 1, 12, 5])]
     return [RESET]
 
 
@@ -674,22 +868,26 @@ def _ls_op(rng, wild, budget):
     if r < 0.86:
         return [DEEPCOPY]
     if r < 0.97:
-        k = rng.randint(0, 6)
+        k = rng.choice([0, 1, 1, 2, 3, 4, 6])
         mes = [_event(2, rng) for _ in range(k)]
-        s0 = rng.choice([0, 1, 4, 16])
-        sq = rng.choice([1, 4, 4, 12])
-        sb = sq * 4
+        s0 = rng.choice([0, 1, 4, 16, -2])
+        sq = rng.choice([1, 4, 4, 12, 5])
+        sb = rng.choice([16, 3, 12, 17, 48])
         ces = [_event(4, rng) for _ in range(k)]
         cs, csb, csq = s0, sb, sq
         m = rng.random()
-        if m < 0.08:
+        if m < 0.07:
             ces = ces + [1]
-        elif m < 0.14:
-            cs = s0 + 1
-        elif m < 0.18:
+        elif m < 0.10:
+            ces = ces[:-1]
+        elif m < 0.15:
+            cs = s0 + rng.choice([1, -1])
+        elif m < 0.19:
             csb = sb + 1
-        elif m < 0.22:
+        elif m < 0.23:
             csq = sq + 1
+        elif m < 0.27:
+            return [REINIT, mes, s0, sb, sq, ces, cs, csb, csq, rng.choice([1, 2])]   # only one part given
         return [REINIT, mes, s0, sb, sq, ces, cs, csb, csq]
     return [RESET]
 
@@ -706,15 +904,16 @@ def _pr_op(rng, wild):
         return [SETLEN, _n(rng, wild), int(rng.random() < 0.12)]
     if r < 0.85:
         return [DEEPCOPY]
-    mn, mx = rng.choice([(0, 127), (21, 108), (60, 72), (64, 64)])
-    return [REINIT, [_pr_event(rng) for _ in range(rng.randint(0, 5))], rng.choice([0, 3, 16]), mn, mx,
-            int(rng.random() < 0.5)]
+    mn, mx = rng.choice([(0, 127), (21, 108), (60, 72), (64, 64), (60, 61), (0, 59), (73, 127)])
+    return [REINIT, [_pr_event(rng) for _ in range(rng.choice([0, 1, 2, 3, 5]))], rng.choice([0, 3, 16, 7]), mn, mx,
+            int(rng.random() < 0.5), rng.choice([4, 1, 12, 24])]
 
 
 def _pf_event(rng, m):
     r = rng.random()
     if r < 0.05:
-        return rng.choice([[0, 5], [6, 5], [1, 128], [2, -1], [3, -1], [4, 0], [4, 128], [5, 0]])
+        return rng.choice([[0, 5], [6, 5], [1, 128], [2, -1], [3, -1], [4, 0], [4, 128], [5, 0], [1, -1], [2, 128],
+                           [NOT_AN_EVENT, 3]])
     if r < 0.35:
         return [1, rng.choice([0, 60, 64, 127])]
     if r < 0.55:
@@ -737,8 +936,12 @@ def _pf_op(rng, wild, st):
         return [TRUNCATE, rng.choice([0, 1, 2, 3, 5, 8, -1, -2, 30])]
     if r < 0.93:
         return [DEEPCOPY]
-    st['m'] = rng.choice([1, 2, 3, 4, 5, 8, 10, 100])
-    return [REINIT, rng.choice([0, 7, 100]), st['m'], int(rng.random() < 0.4)]
+    m = rng.choice([1, 2, 3, 4, 5, 8, 10, 12, 100])
+    nvb = rng.choice([0, 0, 1, 32, 127, 127, 128, 200])
+    if nvb <= 127:
+        st['m'] = m                      # (a rejected constructor call leaves the old object in place)
+    return [REINIT, rng.choice([0, 7, 100, -4]), m, int(rng.random() < 0.4), nvb, rng.randint(0, 4),
+            rng.choice([-1, -1, 0, 17, 127]), rng.choice([-1, 0, 1])]
 
 
 def _random_history(cls, rng, length):
@@ -747,15 +950,19 @@ def _random_history(cls, rng, length):
     if cls == 1:
         init = [rng.randint(-2, 3)]
     elif cls == 6:
-        mn, mx = rng.choice([(0, 127), (21, 108), (60, 72)])
-        init = [rng.choice([0, 2, 16]), mn, mx]
+        mn, mx = rng.choice([(0, 127), (21, 108), (60, 72), (60, 61)])
+        init = [rng.choice([0, 2, 16]), mn, mx, rng.choice([4, 1, 12])]
     elif cls == 7:
-        init = [rng.choice([0, 5, 100]), rng.choice([1, 2, 3, 5, 10, 100]), int(rng.random() < 0.4)]
+        init = [rng.choice([0, 5, 100]), rng.choice([1, 2, 3, 5, 10, 12, 100]), int(rng.random() < 0.4),
+                rng.choice([0, 1, 32, 127]), rng.randint(0, 4), rng.choice([-1, 0, 17]), rng.choice([-1, 0, 1])]
     else:
         init = []
     st = {'m': init[1]} if cls == 7 else None
     ops = []
     for _ in range(length):
+        if ops and ops[-1][0] in (SETLEN, SLICE, DEEPCOPY, TRUNCATE, REINIT) and rng.random() < 0.08:
+            ops.append(list(ops[-1]))        # the same call twice
+            continue
         if cls in (1, 2, 3, 4):
             ops.append(_simple_op(cls, rng, wild, budget))
         elif cls == 5:
@@ -812,6 +1019,7 @@ def cases(rng, tier, n=None):
     for cls in range(1, 8):
         for _ in range(per):
             out.append(_random_history(cls, rng, QUICK_LEN))
+    rng.shuffle(out)                          # classes and configurations interleaved in one process
     if tier == 'thorough' and n is None:
         for cls in range(1, 8):
             out.extend(_exhaustive(cls, 5))
@@ -850,6 +1058,27 @@ def corpus():
         c(3, [], [[REINIT, 0, [1, [[36], [], [38]]], 0, 16, 4], [APPEND, [42]], [DEEPCOPY], [SETLEN, 0, 1]]),
         c(5, [], [[REINIT, [60, -2, 62], 0, 16, 4, [1, 1, 2], 0, 16, 4], [DEEPCOPY], [APPEND, 64, 3], [SETLEN, 2],
                   [SLICE, [], [1]], [SETLEN, 3]]),
+        # an invalid value AFTER valid ones is rejected and nothing changes (seeded C17-6, C17-2)
+        c(2, [], [[REINIT, 0, [1, [60, -1, 62]], 4, 16, 4], [REINIT, 0, [1, [60, 62, 200]], 0, 16, 4],
+                  [REINIT, 0, [1, [-2, -1, -3]], 0, 16, 4], [APPEND, 128], [APPEND, -3], [SETLEN, 4, 0]]),
+        c(3, [], [[REINIT, 0, [1, [[36], [38, 42]]], 4, 16, 4], [REINIT, 0, [1, [[36], [], [36, 128]]], 0, 16, 4],
+                  [REINIT, 0, [1, [[36], [NOT_A_SET, 36]]], 0, 16, 4], [APPEND, [NOT_A_SET, 38]], [APPEND, [-1]],
+                  [APPEND, [0, 127]]]),
+        c(5, [], [[REINIT, [60, -2, 62], 4, 12, 4, [1, 1, 2], 4, 12, 4], [REINIT, [60, 62, 128], 0, 16, 4, [1, 1, 2], 0, 16, 4],
+                  [REINIT, [60], 0, 16, 4, [1], 0, 16, 4, 1], [REINIT, [60], 0, 16, 4, [1], 0, 16, 4, 2],
+                  [REINIT, [60, 300], 0, 16, 4, [1], 0, 16, 4, 2], [REINIT, [60], 0, 16, 4, [1], 0, 17, 4],
+                  [REINIT, [60], 0, 16, 4, [1], 0, 16, 5], [APPEND, 200, 1], [APPEND, 64, 2]]),
+        c(7, [3, 4, 0, 32, 2, 17, 1], [[APPEND, 1, 60], [APPEND, NOT_AN_EVENT, 3], [APPEND, 4, 128], [APPEND, 5, 0],
+                                       [REINIT, 9, 8, 1, 128, 1, 0, 0], [SETLEN, 9, 0], [REINIT, 9, 8, 1, 127, 3, -1, 1],
+                                       [SETLEN, 17, 0], [REINIT, 0, 12, 1, 0, 2, 5, -1], [SETLEN, 30, 0]]),
+        # constructor parameters at non-default, mutually different values
+        c(1, [5], [[REINIT, 3, [1, [1, 2]], -3, 17, 5], [SETLEN, 4, 1], [INCRES, 2, [7]], [INCRES, 3], [RESET],
+                   [REINIT, 4, [1, []], 2, 3, 12], [SETLEN, 2, 0], [REINIT, 5, [], 9, 48, 1], [SETLEN, 1, 1]]),
+        c(4, [], [[REINIT, 3, [1, [1, 2]], 5, 12, 1], [INCRES, 2, [4]], [SETLEN, 6, 1]]),
+        c(2, [], [[REINIT, 3, [1, [60, -2]], 5, 12, 1], [SETLEN, 4, 0], [INCRES, 2], [SETLEN, 9, 1]]),
+        c(6, [1, 60, 61, 12], [[APPEND, [59, 60, 61, 62], 1], [APPEND, [59, 62], 0],
+                               [REINIT, [[0, 59], [60], []], 7, 0, 59, 1, 24], [APPEND, [59, 60], 1],
+                               [REINIT, [], 3, 73, 127, 1, 1], [APPEND, [72, 73, 127], 1], [SETLEN, 3, 0]]),
         # melody padding ends a sustained note / does not add a second NOTE_OFF
         c(2, [], [[APPEND, 60], [SETLEN, 3, 0], [SETLEN, 5, 0], [APPEND, 62], [APPEND, -1], [SETLEN, 9, 0],
                   [SETLEN, 12, 1], [INCRES, 2], [SLICE, [2], [-3]], [DEEPCOPY]]),
